@@ -4,13 +4,15 @@ check of the property it was written against (plus any listed in meta.json "also
 replay in meta.json under "current", and undo the change (git -C /repo checkout -- .).  Prints the catch matrix."""
 import json
 import os
+
+os.environ.setdefault("VERIF_EVIDENCE_DIR", os.path.join(os.path.dirname(os.path.dirname(os.path.abspath(__file__))), ".cache", "seed_evidence"))
 import re
 import subprocess
 import sys
 import time
 
 VERIF = os.path.dirname(os.path.dirname(os.path.abspath(__file__)))
-REPO = "/repo"
+REPO = os.environ.get("VERIF_REPO", "/repo")
 
 
 def sh(cmd, **kw):
